@@ -587,6 +587,13 @@ class Sym:
                             v = self._inline(found[2], c, args, kws, depth, ci)
                             if v is not None:
                                 return v
+                    if base[0] != "class" and self.inline and depth < MAX_INLINE and c.func.attr.startswith("_") and not c.func.attr.startswith("__"):
+                        # private method of another object: inlined when exactly one class of the package defines it
+                        cands = [m for m in prog.functions.values() if m.cls is not None and m.name == c.func.attr]
+                        if len(cands) == 1 and not cands[0].is_static and not cands[0].is_generator:
+                            v = self._inline(cands[0], c, args, kws, depth, cands[0].cls, self_value=base)
+                            if v is not None:
+                                return v
                     return ("method", c.func.attr, base, args, kws)
         # package helper
         target = None
@@ -617,7 +624,7 @@ class Sym:
             return tgt + ("." + rest if rest else "")
         return d
 
-    def _inline(self, target, c, args, kws, depth, tcls):
+    def _inline(self, target, c, args, kws, depth, tcls, self_value=None):
         # only small helpers are inlined: big functions stay opaque call nodes
         if target.qual in self.stack or sum(1 for _ in ast.walk(target.node)) > INLINE_MAX_NODES:
             return None
@@ -632,13 +639,30 @@ class Sym:
         for p, d in target.defaults.items():
             if p not in bound:
                 bound[p] = Sym(self.prog, target, tcls).expr(d, {}, depth + 1)
+        # big arguments (and all arguments when the callee's `self` is another object) are passed as placeholders, so that the size
+        # limit applies to the helper's own normal form and field renaming does not touch the caller's values
+        actual = {p: a for p, a in bound.items() if self_value is not None or size(a) > 24}
+        for p in actual:
+            bound[p] = ("ph", p)
         sub = Sym(self.prog, target, tcls or target.cls, self.inline, self.stack)
         v = sub.function_value(bound, depth + 1)
         if v[0] == "opaque" or contains(v, lambda x: isinstance(x, tuple) and len(x) == 3 and x[0] == "loop"):
             return None
         if size(v) > INLINE_MAX_RESULT:
             return None
+        if self_value is not None:
+            v = _rename_self(v, self_value)
+        for p, a in actual.items():
+            v = _subst(v, ("ph", p), a)
         return v
+
+
+def _rename_self(v, base):
+    if isinstance(v, tuple):
+        if len(v) == 2 and v[0] == "self":
+            return ("attr", base, v[1])
+        return tuple(_rename_self(y, base) for y in v)
+    return v
 
 
 INVERSE = {"is": "is not", "is not": "is", "==": "!=", "!=": "==", "in": "not in", "not in": "in"}
